@@ -4,6 +4,12 @@ Spec (server mode; the same history is executed under Select, Poll and EPoll):
   {"mode": "server", "sndbuf": 0|1, "ops": [[op, a, b, k], ...]}
      op   peer / server action (see OPS); a selects the peer or server-side socket (index modulo the
           currently eligible set), b selects a size or flag, k = loop iterations executed after the op
+     'hangup' arms the application: the peer sends HANGUP_SIZES[b] bytes at once (several x Server bufsize) and the
+          observer reacts to the NEXT read event of that socket by firing close(sock) (b in HANGUP_WRITES: write(sock,
+          reply) first) from inside the handler -- the close is then processed while the poller has already queued
+          another _read for the socket and the rest of the input is still unread;
+     'sclose' with odd b hands the close to the loop AFTER the iteration's generate_events (an application thread /
+          handler firing close between the poll and the dispatch of the poller's _read/_write events)
      sndbuf=1: the listener is created with socket_options=[SO_SNDBUF 4096] (inherited by accepted
           sockets) so that server-side writes to a peer that stopped reading stay in Server._buffers
 Spec (client mode; TCPClient against a raw listening socket owned by the harness):
@@ -13,8 +19,11 @@ One loop iteration = ``root.fire(generate_events(root._lock, 0), '*'); root.tick
 
 Oracle (per poller universe; the three universes are judged independently by the same rules, their histories
 may legitimately diverge because an op is resolved against what the observer has seen so far):
-  * per server-side socket the observer's connect/read/disconnect events match  connect . read* . disconnect
-    and nothing follows; every peer that was not reset before the server accepted it is announced;
+  * per server-side socket the observer's connect/read/error/disconnect events match
+    connect . (read | error)* . disconnect  and NOTHING naming that socket follows (no read, no error, no second
+    disconnect); error events before the disconnect are legal and not counted; an error for a socket that was
+    never announced (reset before accept) is legal; every peer that was not reset before the server accepted it
+    is announced;
   * concatenated read data is a prefix of what the peer sent, and all of it when the connection ended without
     any possible reset (no abort, nothing unread/untransmitted at the peer's close, no server-side close);
   * a close(sock) the application asked for completes while the peer is still there and reading;
@@ -56,12 +65,18 @@ SRV_DATA = bytes((i * 7 + (i >> 8)) & 0xFF for i in range(70000))
 
 SEND_SIZES = [1, 7, 100, 1000, 4096, 4097, 9000, 30000]
 SWRITE_SIZES = [1, 50, 700, 5000, 20000, 60000, 9, 300]
+# 'hangup': bytes the peer sends in one go before the application hangs up on the first read (Server bufsize is 4096:
+# more than 2 x bufsize unread means that a further _read is already queued when the close is processed) ...
+HANGUP_SIZES = [100, 8192, 8193, 12289, 20000, 30000, 60000, 30000]
+# ... and the size of the reply written from the read handler just before the close (0: plain close)
+HANGUP_WRITES = [0, 0, 0, 50, 0, 0, 0, 20000]
 MAX_PEERS = 4
 LINGER0 = struct.pack('ii', 1, 0)
 SETTLE_BOUND = 400
 
 SERVER_OPS = (['conn'] * 5 + ['send'] * 5 + ['shut'] * 2 + ['close'] * 2 + ['abort'] * 3 + ['drain'] +
-              ['swrite'] * 3 + ['sclose'] * 2 + ['swclose'] * 2 + ['lwrite'] * 3 + ['lclose'] * 3 + ['step'])
+              ['swrite'] * 3 + ['sclose'] * 2 + ['swclose'] * 2 + ['lwrite'] * 3 + ['lclose'] * 3 + ['step'] +
+              ['hangup'] * 4)
 CLIENT_OPS = (['connect'] * 4 + ['psend'] * 3 + ['pshut'] * 2 + ['pclose'] * 2 + ['pabort'] * 2 +
               ['cwrite'] * 2 + ['cclose'] * 2 + ['cwclose'] * 2 + ['step'])
 
@@ -79,6 +94,18 @@ class SrvObs(BaseComponent):
         self.ev = []         # (kind, sock index, payload)
         self.errors = 0
         self.excs = []
+        self.srv = None
+        self.nread = {}      # sock index -> bytes announced by read events so far
+        self.armed = {}      # sock index -> size of the reply to write before hanging up on the next read (0: none)
+        self.hangups = []    # (sock index, bytes read up to and including the triggering read, reply size)
+        self.unannounced_errors = 0
+        self.stale = set()   # '_read'/'_write' dispatched for a socket the server had already closed
+
+    def known(self, sock):
+        for i, s in enumerate(self.socks):
+            if s is sock:
+                return i
+        return None
 
     def idx(self, sock):
         for i, s in enumerate(self.socks):
@@ -93,7 +120,16 @@ class SrvObs(BaseComponent):
 
     @handler('read', priority=50)
     def _r(self, sock, data):
-        self.ev.append(('read', self.idx(sock), bytes(data)))
+        i = self.idx(sock)
+        self.ev.append(('read', i, bytes(data)))
+        self.nread[i] = self.nread.get(i, 0) + len(data)
+        if i in self.armed:
+            # the application hangs up in reaction to what it has just read ("bad request")
+            n = self.armed.pop(i)
+            if n:
+                self.fire(write_ev(sock, SRV_DATA[:n]))
+            self.fire(close_ev(sock))
+            self.hangups.append((i, self.nread[i], n))
 
     @handler('disconnect', priority=50)
     def _d(self, sock=None, *a):
@@ -102,6 +138,19 @@ class SrvObs(BaseComponent):
     @handler('error', priority=50)
     def _e(self, *a):
         self.errors += 1
+        if a and isinstance(a[0], socket.socket):
+            i = self.known(a[0])
+            if i is None:
+                self.unannounced_errors += 1     # e.g. reset before accept: no connect, so no socket history
+            else:
+                self.ev.append(('error', i, str(a[1])[:60] if len(a) > 1 else None))
+
+    @handler('_read', '_write', priority=50)
+    def _p(self, event, sock):
+        # measurement only: the poller's event reaches the server after the server closed that socket
+        srv = self.srv
+        if srv is not None and sock is not srv._sock and self.known(sock) is not None and sock not in srv._clients:
+            self.stale.add(event.name)
 
     @handler('exception', channel='*', priority=50)
     def _x(self, etype, evalue, tb, handler=None, fevent=None):
@@ -194,6 +243,8 @@ class _ServerRun:
         self.sclosed = set()    # sidx for which a server-side close was requested before the disconnect
         self.disc = set()       # sidx whose disconnect has been observed
         self.matched = 0        # events already scanned for connect/disconnect
+        self.hseen = 0          # hangups (close fired by the observer's read handler) already accounted for
+        self.after_poll = []    # events handed to the loop after this iteration's generate_events
         self.escaped = None
         self.close_ignored = None
         self.inconclusive = False
@@ -204,6 +255,10 @@ class _ServerRun:
         for _ in range(n):
             try:
                 root.fire(generate_events(root._lock, 0), '*')
+                if self.after_poll:
+                    pending, self.after_poll = self.after_poll, []
+                    for e in pending:
+                        root.fire(e, 'server')
                 root.tick()
             except Exception as e:  # an exception leaving tick() would end run()
                 self.escaped = '%s: %s' % (type(e).__name__, str(e)[:120])
@@ -224,6 +279,22 @@ class _ServerRun:
             elif kind == 'disconnect':
                 self.disc.add(sidx)
         srv = self.srv
+        hangups = self.obs.hangups
+        while self.hseen < len(hangups):
+            sidx, nread, nw = hangups[self.hseen]
+            self.hseen += 1
+            self.sclosed.add(sidx)
+            self.classes.add('server-close')
+            self.classes.add('close-in-read-handler')
+            if nw:
+                self.swritten[sidx] = self.swritten.get(sidx, 0) + nw
+            p = self.peer_of(sidx)
+            if p is not None:
+                if nw and p.closed:
+                    p.reset_possible = True
+                if p.sent - nread > 2 * srv._bufsize:
+                    # the shape: close processed while >2 reads worth of input is pending => a _read is in the queue
+                    self.classes.add('close-in-read-handler:backlog>2xbufsize')
         if srv._closeq:
             self.classes.add('closeq-used')
         for q in list(srv._buffers.values()):
@@ -292,18 +363,15 @@ class _ServerRun:
         elif name == 'send':
             c = [p for p in self.live_peers() if not p.shut]
             if c:
+                self.peer_send(c[a % len(c)], SEND_SIZES[b % len(SEND_SIZES)])
+        elif name == 'hangup':
+            c = [p for p in self.live_peers() if not p.shut and p.sidx is not None and p.sidx not in self.disc
+                 and p.sidx not in self.obs.armed]
+            if c:
                 p = c[a % len(c)]
-                n = SEND_SIZES[b % len(SEND_SIZES)]
-                off = p.n * 4099 + p.sent
-                try:
-                    sent = p.sock.send(STREAM[off:off + n])
-                except (BlockingIOError, InterruptedError):
-                    sent = 0
-                except OSError:
-                    # the server already closed/reset this connection: nothing more can be sent
-                    sent = 0
-                    p.shut = True
-                p.sent += sent
+                self.obs.armed[p.sidx] = HANGUP_WRITES[b % len(HANGUP_WRITES)]
+                self.peer_send(p, HANGUP_SIZES[b % len(HANGUP_SIZES)])
+                self.classes.add('hangup-armed')
         elif name == 'shut':
             c = [p for p in self.live_peers() if not p.shut]
             if c:
@@ -351,8 +419,29 @@ class _ServerRun:
                     else:
                         self.sclosed.add(sidx)
                         self.classes.add('server-close')
-                    self.root.fire(close_ev(sock), 'server')
+                    if name == 'sclose' and b % 2 == 1 and not is_late:
+                        # the close reaches the queue behind this iteration's generate_events: whatever the poller
+                        # reports for the socket now is dispatched after the socket has been closed
+                        self.after_poll.append(close_ev(sock))
+                        self.classes.add('close-after-poll')
+                        p = self.peer_of(sidx)
+                        if p is not None and p.sent > self.obs.nread.get(sidx, 0):
+                            self.classes.add('close-after-poll:unread-input')
+                    else:
+                        self.root.fire(close_ev(sock), 'server')
         self.it(k)
+
+    def peer_send(self, p, n):
+        off = p.n * 4099 + p.sent
+        try:
+            sent = p.sock.send(STREAM[off:off + n])
+        except (BlockingIOError, InterruptedError):
+            sent = 0
+        except OSError:
+            # the server already closed/reset this connection: nothing more can be sent
+            sent = 0
+            p.shut = True
+        p.sent += sent
 
     def drain(self, p):
         while True:
@@ -399,6 +488,7 @@ class _ServerRun:
         opts = [(socket.SOL_SOCKET, socket.SO_SNDBUF, 4096)] if spec.get('sndbuf') else []
         self.srv = TCPServer(('127.0.0.1', 0), socket_options=opts).register(root)
         self.obs = SrvObs().register(root)
+        self.obs.srv = self.srv
         self.settled = False
         try:
             for _ in range(20):
@@ -538,7 +628,9 @@ class _ServerRun:
             if nd > 1:
                 return 'double-disconnect', where
             if nd == 1 and kinds[-1] != 'disconnect':
-                return 'event-after-disconnect', where
+                after = seq[kinds.index('disconnect') + 1:]
+                return 'event-after-disconnect', '%s: after the disconnect of the socket observers still saw %s' % (
+                    where, ', '.join('%s(%s)' % (k, d if k == 'error' else '...') for k, d in after[:3]))
             if nd == 0:
                 if sidx in self.tables['flushing']:
                     # The server still holds data for this socket that the kernel did not take within the bound
@@ -820,13 +912,18 @@ class C12(Prop):
     rule = ('histories of <=4 concurrent loopback peers against a real TCPServer (connect [awaited or not], send n, '
             'shutdown(WR), close [with/without draining], abort via SO_LINGER 0, slow reader with small SO_RCVBUF, drain) '
             'interleaved with server-side write/close and LATE write/close to sockets whose disconnect was already '
-            'observed, 0-3 zero-time-out loop iterations after each op; every history is executed under Select, Poll and '
+            'observed, close(sock) fired behind the iteration\'s poll, and "hangup": the peer sends 100..60000 bytes at once '
+            'and the application fires [write+]close(sock) from its handler of the next read event (close processed with '
+            'several x bufsize still unread and a further _read queued; class close-in-read-handler:backlog>2xbufsize), '
+            '0-3 zero-time-out loop iterations after each op; every history is executed under Select, Poll and '
             'EPoll; 2 in 7 cases are TCPClient histories (connect/peer send/half-close/close/abort/client write/close/'
             'write+close/late write/close, reconnects). non-trivial = the history executed an abort or half-close AND a late write/close actually '
             'addressed to an already disconnected socket; distinct = distinct spec hash')
     assumptions = ('Linux loopback TCP: delivery of data/FIN/RST happens inside the sending system call; the interpreter '
                    'nevertheless only waits on conditions (bounded iteration counts), never on time',
-                   'chunking of reads, error events and which prefix of the data is delivered before a reset are not asserted',
+                   'chunking of reads, error events BEFORE the disconnect of a socket (number, errno) and which prefix of the '
+                   'data is delivered before a reset are not asserted; any read/error/disconnect naming a socket after its '
+                   'disconnect is a violation; error events for sockets that were never announced are ignored',
                    'a connection reset by the peer before the server could accept it need not be announced at all',
                    'a deferred close whose data the kernel does not take within the iteration bound is inconclusive')
     budget = {'quick': (450, 4), 'thorough': (10000, 16)}
@@ -858,6 +955,13 @@ class C12(Prop):
             classes |= r.classes
             if r.obs.errors:
                 classes.add('error-event')
+            if mode == 'server':
+                if any(k == 'error' for k, _, _ in r.obs.ev):
+                    classes.add('error-event-names-announced-socket')
+                if r.obs.unannounced_errors:
+                    classes.add('error-event-for-unannounced-socket')
+                for name in sorted(r.obs.stale):
+                    classes.add('stale-%s-after-close' % name)
             if r.obs.excs:
                 classes.add('exception-event')
         verdicts = [r.judge() for r in runs]
